@@ -189,11 +189,7 @@ func (env *SpecEnv) expansionOf(x ast.Expr) *Expansion {
 	for _, a := range call.Args {
 		args = append(args, env.eval(a))
 	}
-	for i := range args {
-		if i < len(fn.Params) {
-			args[i] = retype(args[i], fn.Params[i].Type())
-		}
-	}
+	env.e.coerceArgs(fn, args)
 	ex := env.e.expansions[expansionKey(fn, args)]
 	if ex == nil {
 		panic("spec: exit(): expansion not found for these arguments")
